@@ -418,6 +418,11 @@ class Interp:
 
     def st_For(self, s, fr):
         it = self.eval(s.iter, fr)
+        if isinstance(it, SymList):
+            hook = getattr(self, 'symloop_hook', None)
+            if hook is not None and hook(self, s, fr, it):
+                return
+            return self._for_symlist_havoc(s, fr, it)
         items = self.iterate(it, s)
         broke = False
         for v in items:
@@ -431,6 +436,73 @@ class Interp:
                 continue
         if not broke:
             self.exec_block(s.orelse, fr)
+
+    def _for_symlist_havoc(self, s, fr, lst):
+        """loop over a list of symbolic length without a supplied invariant: *typed havoc* summary.
+        The variables the body assigns are replaced by arbitrary values of their current kind (the
+        invariant `True` over typed state); the body is executed once on an arbitrary element so that
+        every raise site in it is checked; the loop is left either by `break` (state after that
+        iteration) or by exhaustion (havoced state).  Sound for safety obligations; values computed by
+        the loop become opaque."""
+        if s.orelse:
+            raise Unsupported('for/else over symbolic list')
+        ctx = self.ctx
+        names = set()
+        for n in ast.walk(ast.Module(body=s.body, type_ignores=[])):
+            if isinstance(n, (ast.Assign, ast.AugAssign, ast.AnnAssign)):
+                tg = n.targets if isinstance(n, ast.Assign) else [n.target]
+                for t in tg:
+                    for x in ast.walk(t):
+                        if isinstance(x, ast.Name) and isinstance(x.ctx, ast.Store):
+                            names.add(x.id)
+                    if isinstance(t, (ast.Attribute, ast.Subscript)):
+                        raise Unsupported('loop over symbolic list writes to attribute/subscript (needs an invariant)')
+            if isinstance(n, ast.Call) and isinstance(n.func, ast.Attribute) and n.func.attr in (
+                    'append', 'extend', 'insert', 'pop', 'clear', 'update') and isinstance(n.func.value, ast.Name):
+                names.add(n.func.value.id)
+            if isinstance(n, (ast.Yield, ast.YieldFrom)):
+                raise Unsupported('yield inside loop over symbolic list (needs an invariant)')
+        tag = ctx.fresh('loop')
+
+        def havoc(name, v):
+            if isinstance(v, bool) or isinstance(v, SBool):
+                return SBool(z3.Bool('%s.%s' % (tag, name)))
+            if is_intlike(v):
+                return SInt(z3.Int('%s.%s' % (tag, name)))
+            if is_strlike(v):
+                return atom_str(z3.Int('%s.%s' % (tag, name)))
+            if isinstance(v, (bytes, SBytes, OBytes)):
+                return OBytes(z3.Int('%s.%s' % (tag, name)), origin=('loop-havoc', lst, name))
+            if isinstance(v, PList):
+                n_ = z3.Int('%s.%s.len' % (tag, name))
+                ctx.facts.append(n_ >= 0)
+
+                def elem(j):
+                    raise Unsupported('element of a list built by a loop without invariant')
+                return SymList('%s.%s' % (tag, name), n_, elem, origin=('loop-havoc', lst, name))
+            raise Unsupported('loop over symbolic list modifies a %s (needs an invariant)' % type(v).__name__)
+
+        def do_havoc():
+            for nm in sorted(names):
+                try:
+                    cur = self.lookup(nm, fr)
+                except Unsupported:
+                    continue
+                fr.set(nm, havoc(nm, cur))
+        do_havoc()
+        by_break = ctx.branch(z3.Bool(tag + '.left_by_break'))
+        k = z3.Int(tag + '.k')
+        if by_break:
+            ctx.assume(z3.And(k >= 0, k < lst.length))
+            self.assign(s.target, lst.elem(k), fr)
+            try:
+                self.exec_block(s.body, fr)
+            except BreakSig:
+                return
+            except ContinueSig:
+                pass
+            raise paths.PathAbort('non-breaking iteration (covered by the havoc state)')
+        return
 
     def st_While(self, s, fr):
         n = 0
